@@ -864,13 +864,27 @@ def run_job(job, seed, tier, rec, known):
     try:
         shard = job["shard"]
         for si, sk in enumerate(SINKS.values()):
-            strat = T.markup_text(sk.max_len, sk.fname)
+            # shards draw from differently shaped strategies (1, 2 or 3 tokens at least) for diversity
+            strat = T.markup_text(sk.max_len, sk.fname, min_tokens=1 + shard % 3)
             for vi, n in _assignment(sk, shard, tier):
                 variant = sk.variants[vi]
 
-                def fn(s, sk=sk, variant=variant):
+                seen = set()
+
+                def fn(s, sk=sk, variant=variant, seen=seen):
+                    if s in seen and not fn.failing:
+                        rec.discarded += 1  # Hypothesis repeats short strings: executed once per (sink, variant)
+                        return
+                    seen.add(s)
                     rec.note([sk.name, variant, s], T.nontrivial(s), classes=T.classes_of(s) + ["sink:" + sk.name])
-                    check_case([sk.name, variant, s], env)
+                    try:
+                        check_case([sk.name, variant, s], env)
+                    except Violation as v:
+                        if v.key not in known:
+                            fn.failing = True  # from here on the shrinker must see consistent results
+                        raise
+
+                fn.failing = False
 
                 f = hyp_search(fn, strat, seed=seed * 101 + si * 7919 + vi, max_examples=n, rec=rec, known=known,
                                shrink_budget=60)
